@@ -128,14 +128,17 @@ MCDictOps ==
          [m |-> "pop", k |-> s(<<"K">>)], [m |-> "clear"]}]
 
 (* ---- instance V: required fields, defaults, field and schema validators, a feature flag (C11) ---- *)
+ItemV == [validators |-> <<"host_not_x">>] @@
+         SchemaF(<< <<"host", With(StringF, [required |-> TRUE])>>, <<"port", With(IntF, [default |-> IntV(1)])>> >>)
 FeatS == [flagkey |-> "enabled", validators |-> <<"needs_key">>] @@
          SchemaF(<< <<"enabled", With(BoolF, [default |-> BoolV(FALSE)]) @@ [flag |-> TRUE]>>,
-                    <<"key", With(StringF, [required |-> TRUE])>> >>)
+                    <<"key", With(StringF, [required |-> TRUE])>>,
+                    \* configurations held by a flagged section are held to the rule when they are loaded,
+                    \* whatever the flag says at that moment
+                    <<"srv", With(ListF(ItemV), [default |-> ListV(<<>>)])>> >>)
 DeepV == SchemaF(<< <<"z", With(StringF, [required |-> TRUE, default |-> s(<<"z", "z">>)])>> >>)
 CoreS == [validators |-> <<"x_lt_y">>, ctype |-> TRUE] @@
          SchemaF(<< <<"x", With(IntF, [required |-> TRUE])>>, <<"y", With(IntF, [default |-> IntV(5)])>>, <<"deep", DeepV>> >>)
-ItemV == [validators |-> <<"host_not_x">>] @@
-         SchemaF(<< <<"host", With(StringF, [required |-> TRUE])>>, <<"port", With(IntF, [default |-> IntV(1)])>> >>)
 SchemaV == [validators |-> <<"always_ok">>] @@ SchemaF(<<
     <<"name", With(StringF, [required |-> TRUE])>>,
     <<"port", With(IntF, [default |-> IntV(80), fval |-> "v_even"])>>,
@@ -161,7 +164,11 @@ MCSetCandsV ==
           [] pk = << <<"core">>, "y">> -> {IntV(0), IntV(7)}
           [] pk = << <<>>, "core">> -> {D1(<<"x">>, IntV(1)), D1(<<"x">>, IntV(9)), D1(<<"y">>, IntV(7)), D2(<<"x">>, IntV(1), <<"d", "e", "e", "p">>, D1(<<"z">>, NoneV))}
           [] pk = << <<>>, "srv">> -> {ListV(<<D1(<<"h", "o", "s", "t">>, s(<<"h", "1">>))>>), ListV(<<D1(<<"h", "o", "s", "t">>, s(<<"x">>))>>), ListV(<<D1(<<"p", "o", "r", "t">>, IntV(2))>>), ListV(<<>>)}]
-MCTreesV == {DictV(<<>>), TFull, D1(<<"n","a","m","e">>, s(<<"a", "p", "p">>)), TCore(IntV(1)), TCore(IntV(9)),
+TFeat(items, flag) == DictV(<< <<s(<<"n", "a", "m", "e">>), s(<<"a", "p", "p">>)>>, <<s(<<"t", "a", "g", "s">>), ListV(<<s(<<"t", "1">>)>>)>>, <<s(<<"c", "o", "r", "e">>), D1(<<"x">>, IntV(1))>>,
+                             <<s(<<"f", "e", "a", "t">>), DictV(<< <<s(<<"s", "r", "v">>), items>>, <<s(<<"k", "e", "y">>), s(<<"k", "k">>)>>, <<s(<<"e", "n", "a", "b", "l", "e", "d">>), BoolV(flag)>> >>)>> >>)
+MCTreesV == {DictV(<<>>), TFull,
+             TFeat(ListV(<<D1(<<"h", "o", "s", "t">>, s(<<"h", "1">>))>>), TRUE), TFeat(ListV(<<D1(<<"h", "o", "s", "t">>, s(<<"x">>))>>), TRUE),
+             TFeat(ListV(<<D1(<<"p", "o", "r", "t">>, IntV(2))>>), TRUE), TFeat(ListV(<<D1(<<"h", "o", "s", "t">>, s(<<"x">>))>>), FALSE), D1(<<"n","a","m","e">>, s(<<"a", "p", "p">>)), TCore(IntV(1)), TCore(IntV(9)),
              DictV(<< <<s(<<"n", "a", "m", "e">>), s(<<"a", "p", "p">>)>>, <<s(<<"t", "a", "g", "s">>), ListV(<<s(<<"t", "1">>)>>)>>, <<s(<<"c", "o", "r", "e">>), D1(<<"x">>, IntV(1))>>,
                       <<s(<<"f", "e", "a", "t">>), D1(<<"e", "n", "a", "b", "l", "e", "d">>, BoolV(TRUE))>> >>),
              DictV(<< <<s(<<"n", "a", "m", "e">>), s(<<"a", "p", "p">>)>>, <<s(<<"t", "a", "g", "s">>), ListV(<<s(<<"t", "1">>)>>)>>, <<s(<<"c", "o", "r", "e">>), D1(<<"x">>, IntV(1))>>,
@@ -172,7 +179,8 @@ MCTreesV == {DictV(<<>>), TFull, D1(<<"n","a","m","e">>, s(<<"a", "p", "p">>)), 
              DictV(<< <<s(<<"n", "a", "m", "e">>), s(<<"a", "p", "p">>)>>, <<s(<<"t", "a", "g", "s">>), ListV(<<s(<<"t", "1">>)>>)>>, <<s(<<"c", "o", "r", "e">>), D1(<<"x">>, IntV(1))>>, <<s(<<"o", "p", "t", "s">>), DictV(<<>>)>> >>)}
 MCKwargsV == {<<>>, << <<"name", s(<<"a", "p", "p">>)>> >>, << <<"core", D1(<<"x">>, IntV(1))>> >>, << <<"core", D1(<<"x">>, IntV(9))>> >>}
 MCListOpsV ==
-    [pk \in {<< <<>>, "srv">>} |->
+    [pk \in {<< <<>>, "srv">>, << <<>>, "tags">>} |->
+      IF pk[2] = "tags" THEN {[m |-> "append", v |-> s(<<"t", "2">>)], [m |-> "clear"], [m |-> "pop"]} ELSE
         {[m |-> "append", v |-> D1(<<"h", "o", "s", "t">>, s(<<"h", "1">>))], [m |-> "append", v |-> D1(<<"h", "o", "s", "t">>, s(<<"x">>))],
          [m |-> "append", v |-> D1(<<"p", "o", "r", "t">>, IntV(3))], [m |-> "item_set", i |-> 0, k |-> "host", v |-> NoneV],
          [m |-> "item_set", i |-> 0, k |-> "host", v |-> s(<<"x">>)], [m |-> "pop"],
@@ -208,7 +216,10 @@ GLeaves == <<
     With(PortF, [default |-> IntV(8080)]),
     \* typed containers that are unset (no default): nothing to operate on until a value is assigned
     DictF(StringF, With(IntF, [hasmin |-> TRUE, min |-> 0])),
-    ListF(With(IntF, [hasmin |-> TRUE, min |-> 0])) >>
+    ListF(With(IntF, [hasmin |-> TRUE, min |-> 0])),
+    \* required typed containers that start non-empty (they can be emptied in place)
+    With(ListF(With(IntF, [hasmin |-> TRUE, min |-> 0])), [required |-> TRUE, default |-> ListV(<<IntV(1)>>)]),
+    With(DictF(StringF, IntF), [required |-> TRUE, default |-> D1(<<"k">>, IntV(1))]) >>
 GSubs == <<
     SchemaF(<< <<"x", With(IntF, [default |-> IntV(1), required |-> TRUE])>>, <<"y", With(StringF, [choices |-> << <<"u">>, <<"v">> >>])>> >>),
     [validators |-> <<"x_not_3">>] @@ SchemaF(<< <<"x", With(IntF, [default |-> IntV(1)])>> >>),
@@ -236,6 +247,14 @@ MCNoFamily == <<>>
 NextThenRoundTrip ==
     \/ steps = 0 /\ Next
     \/ steps >= 1 /\ \E n \in Names : Tick /\ RoundTrip(n, IOEnv.FAM_FMT)
+\* likewise: every operation followed by validate() / validate(collect_errors=True), and by a
+\* reset of each field
+NextThenValidate ==
+    \/ steps = 0 /\ Next
+    \/ steps >= 1 /\ \E n \in Names : Tick /\ (Check(n) \/ CheckCollect(n))
+NextThenReset ==
+    \/ steps = 0 /\ Next
+    \/ steps >= 1 /\ \E n \in Names, pk \in DOMAIN SetCandsNow : Tick /\ Reset(n, pk)
 \* plus the "diagonal" (both keys of the same node shape), so that every shape is replayed by every run
 DiagSids == {i \in DOMAIN FamilySeq : Len(FamilySeq[i].fields) = 2 /\ FamilySeq[i].fields[1][2] = FamilySeq[i].fields[2][2]}
 SidSample == (sid % atoi(IOEnv.FAM_STRIDE)) = atoi(IOEnv.FAM_PHASE) \/ sid \in DiagSids
